@@ -120,6 +120,7 @@ func main() {
 		}
 	}
 	add("matrix", matrixSets)
+	add("small", smallSets)
 	add("oneofs", oneofSets)
 	add("maps", mapSets)
 	add("nest", nestSets)
